@@ -1,0 +1,10 @@
+//go:build verif
+
+package agent
+
+import "github.com/postalsys/muti-metroo/internal/socks5"
+
+// VerifSOCKS5Server returns the SOCKS5 server the agent built from its
+// configuration (nil when socks5 is disabled). Read-only accessor for the
+// verification harness (build tag verif only).
+func (a *Agent) VerifSOCKS5Server() *socks5.Server { return a.socks5Srv }
